@@ -131,7 +131,7 @@ func TestC23(t *testing.T) {
 	for _, ops := range corpus() {
 		emit(ops, "corpus", true)
 	}
-	n := r.N(50, 400)
+	n := r.N(40, 400)
 	for i := 0; i < n; i++ {
 		g := &sh.Gen{R: r.Rng, S: sh.NewShadow(), AvoidDiv: i%5 != 0}
 		k := 20 + r.Rng.Intn(21)
